@@ -24,6 +24,7 @@ def parseEnts (t : String) : Option (List (Bool × Nat × Nat)) := (parseList t)
 def parseKind : String → Option Kind
   | "ok" => some .ok | "cbfail" => some .cbfail | "cbfail0" => some .cbfail0
   | "sqlfail" => some .sqlfail | "appfail" => some .appfail | "read" => some .read
+  | "ctxcancel" => some .ctxfail | "ctxdeadline" => some .ctxfail
   | _ => none
 
 def dump (s : St) : String :=
